@@ -9,13 +9,18 @@ from symlomond.env import World, Script
 _ready = False
 
 
-def lomond():
-    """import the package under test: instrumented shadow copy (exploration) or pristine (replay)"""
+def lomond(fresh=False):
+    """import the package under test: instrumented shadow copy (exploration) or pristine (replay).
+    fresh=True (exploration only; a replay is a new process anyway): execute the module bodies again, so that module- and
+    class-level state of the package cannot leak from one explored path into the next"""
     global _ready
     if not _ready:
         if 'lomond' not in sys.modules:
             env.install()
         _ready = True
+    elif fresh and not getattr(env, 'PRISTINE', False):
+        from symlomond import instrument
+        instrument.reload_fresh()
     import lomond as L
     return L
 
